@@ -26,6 +26,7 @@ type Broker struct {
 	awaitingRel map[int]bool
 	out         []*OutMsg
 	nextID      int
+	sizes       map[int]int // payload size -> tag of every message published to the client
 	// Mute lists packet types whose answers are withheld.
 	Mute map[string]bool
 }
@@ -185,6 +186,10 @@ func (b *Broker) Publish(c *Conn, qos int, topic string, payload []byte, retain 
 		}
 		b.out = append(b.out, &OutMsg{ID: id, QoS: qos, Topic: topic, Payload: payload, State: "sent"})
 	}
+	if b.sizes == nil {
+		b.sizes = map[int]int{}
+	}
+	b.sizes[len(payload)] = codec.TagOf(payload)
 	b.send(c, &codec.Packet{T: "PUBLISH", ID: id, QoS: qos, Topic: topic, Payload: payload, Retain: retain})
 	return id
 }
@@ -218,4 +223,11 @@ func (b *Broker) OutPending() int {
 		}
 	}
 	return n
+}
+
+// TagBySize identifies a delivery to the client by its payload size (0 = unknown).
+func (b *Broker) TagBySize(size int) int {
+	b.mu.Lock()
+	defer b.mu.Unlock()
+	return b.sizes[size]
 }
